@@ -191,12 +191,13 @@ def case_null_space(m, n, timeout=60.0):
             A = np.asarray(args[0]).astype(np.int64) % 2
             Bn, pn = f2.rref(args[0])
             free = [c for c in range(n) if c not in pn]
-            ok_type = isinstance(res, np.ndarray) and res.ndim == 2 and res.shape == (len(free), n) and res.dtype == np.int8
+            # the property asks for a basis of exactly the kernel, 2-D and integer-typed also when empty; WHICH basis and which integer type is the library's business
+            ok_type = isinstance(res, np.ndarray) and res.ndim == 2 and res.shape == (len(free), n) and res.dtype.kind in "iub"
             cl = [("typed_shape", ok_type), ("count", isinstance(res, np.ndarray) and res.shape[0] == len(free))]
             if ok_type:
                 inker = not ((A @ res.T.astype(np.int64)) % 2).any()
                 cl += [(f"in_kernel.row{i}", inker) for i in range(n + 2)]
-                cl.append(("echelon", all(res[t, f] == (1 if f == free[t] else 0) for t in range(len(free)) for f in free)))
+                cl.append(("independent", len(_rowspace_key(res.astype(np.int64) % 2)) == res.shape[0] if res.shape[0] else True))
             return cl
         Bm, piv = holder["B"], holder["piv"]
         p = L.pivot_indicator(piv, n)
@@ -234,7 +235,9 @@ def case_null_space(m, n, timeout=60.0):
                 ech.append(False)
         cl = [("typed_shape", X.And(*typed)), ("count", X.And(*count))]
         cl += [(f"in_kernel.row{i}", e) for i, e in enumerate(kern)]
-        cl.append(("echelon", X.And(*ech)))
+        # independence is proved through a sufficient condition (identity pattern on the free columns); if the code builds another basis this clause is refuted
+        # symbolically but holds on the real output, which withholds the verdict (UNDECIDED) - the GROUND families then decide independence by rank
+        cl.append(("independent", X.And(*ech)))
         return cl
 
     def replay_args(model, args, kwargs):
